@@ -9,6 +9,22 @@ E3 = "E3 choice-tape explorer (vmc/engines/choice.py)"
 
 # id: (engine, technique, level text, level note, design ref)
 CHECKS = {
+ "C05": (E1, "bounded-exhaustive enumeration of charge patterns with their full single-site substitution orbits, reversal and inversion; metamorphic oracle between two real evaluations",
+         "Every pattern to length 6 (quick) / 8 (thorough) with every single-site class-preserving substitution, 16 respellings, reversal and inversion, and every {PEDKR, other} word to length 8/11 for Omega; kappa, delta, delta-max, SCD, Omega of each variant are compared with the base sequence. No symmetry reduction is applied because the symmetry is the property.",
+         "Relations only - values are judged by C01-C03, C06, C07.",
+         "DESIGN.md section 4 C05"),
+ "C06": (E1, "exhaustive enumeration of words x all 81 group assignments (inputs x configurations), differential oracle through the real kappa of the independently recoded sequence",
+         "Every {K,E,P,G} word of length 1..3 and 5 (thorough 1..6) under all 81 assignments of its letters to the two groups, with swapped groups, member order, letter case and padding by absent residues; one-group vs complementary call; Omega == kappa(recoded) == kappa_X(PEDKR); kappa == kappa_X(ED,KR); Omega string; invalid members rejected at every position.",
+         "Overlapping groups and an empty second group are unspecified and not judged.",
+         "DESIGN.md section 4 C06"),
+ "C09": (E1, "exhaustive enumeration of the 9-class composition lattice x a pH grid; independent Henderson-Hasselbalch reference; call-count bound on the pI search",
+         "All compositions over {K,R,H,D,E,C,Y,P,other} with total <=4 (quick) / <=6 (thorough) x a 56/86-point pH grid including every pKa and both interval ends +-1e-9, plus extreme X^a Y^b sequences up to 1000 residues for the pI bracket-widening path: values, monotonicity, bounds, range rejection, pI termination (<=400 charge evaluations) and neutrality.",
+         "pKa table pinned in vmc/refmodel/tables.py; pH values between grid points are not covered (the functions are smooth sums of sigmoids).",
+         "DESIGN.md section 4 C09"),
+ "C10": (E1, "exhaustive enumeration of words x every window size x every profile getter, exact rational reference per window",
+         "Every {K,E,G,P} word to length 5 (quick) / 7 (thorough) x windows 1..N+3 x the four profile getters and the composition getter with 7 group lists: shape, position row, centre placement for odd and even windows, zero flanks, w=N link to the global getter, delta link, and rejection of w>N.",
+         "Hydropathy profile is taken to be on the Uversky 0-1 scale (equals get_uversky_hydropathy at w=N).",
+         "DESIGN.md section 4 C10"),
  "C01": (E1, "bounded-exhaustive explicit-state enumeration of charge patterns and of all arrangements of sparse compositions; invariant checked on every state",
          "Every charge pattern up to length 10 (quick) / 12 (thorough) and every arrangement of the sparse compositions of total 10..20 is run through the real get_kappa/get_delta/get_deltaMax and judged by the three clauses of the property (-1 iff delta-max 0; clamp(delta/delta-max); range). The range clause genuinely fails today for a listed finite set of patterns (known finding F-KAPPA); any pattern outside that list is a violation.",
          "delta and delta-max are taken from the same API (their values are C02/C03's job); the list of known kappa>1 orbits is complete only for the explored space.",
